@@ -133,6 +133,17 @@ def ext_memcmp_bytes(interp, st, i, args):
     return out
 
 
+class PtrByte:
+    """byte j of a pointer value stored into byte-tracked memory"""
+    __slots__ = ('p', 'j')
+
+    def __init__(self, p, j):
+        self.p, self.j = p, j
+
+    def __repr__(self):
+        return 'byte %d of %r' % (self.j, self.p)
+
+
 class SInterp(CB.ByteInterp):
     """ByteInterp over one witness module.  Locals are byte-tracked as well (a temporary container is copied with the same
     block moves as a parameter); a pointer stored into tracked memory is kept as a pointer cell next to the bytes."""
@@ -184,28 +195,31 @@ class SInterp(CB.ByteInterp):
             self.check_access(st, p, 8, inst, 'load')
             if st.bottom:
                 return TOP
-            v = st.mem.get((p.obj, p.off.c, 8))
-            if isinstance(v, PtrVal):
-                return v
+            bs = [st.mem.get((p.obj, p.off.c + j, 1)) for j in range(8)]
+            if all(isinstance(b, PtrByte) and b.j == j and b.p is bs[0].p for j, b in enumerate(bs)):
+                return bs[0].p
             raise Unresolved('load of a pointer from %s that no pointer was stored to' % o.info['label'])
         return CB.ByteInterp.load(self, st, p, ty, inst)
 
     def store(self, st, p, v, size, inst):
         o = self.tracked(st, p)
-        if o is not None and p.off.is_const():
-            # a pointer cell that a narrower / overlapping store damages is forgotten
-            for k in [k for k in st.mem if k[0] == p.obj and k[2] == 8 and k[1] < p.off.c + size and p.off.c < k[1] + 8]:
-                del st.mem[k]
-            if isinstance(v, PtrVal):
-                self.check_access(st, p, size, inst, 'store')
-                if st.bottom:
-                    return
-                for j in range(size):
-                    st.mem.pop((p.obj, p.off.c + j, 1), None)
-                st.mem[(p.obj, p.off.c, 8)] = v
-                st.ghost['W'] = st.ghost.get('W', frozenset()) | frozenset((p.obj, p.off.c + j) for j in range(size))
+        if o is not None and isinstance(v, PtrVal) and size == 8:
+            # a pointer in byte-tracked memory: eight cells that remember the pointer (block moves carry them along, the
+            # loop-head signature of run_loop sees a cursor that lives in memory)
+            self.check_access(st, p, size, inst, 'store')
+            if st.bottom:
                 return
+            for j in range(8):
+                st.mem[(p.obj, p.off.c + j, 1)] = PtrByte(v, j)
+            st.ghost['W'] = st.ghost.get('W', frozenset()) | frozenset((p.obj, p.off.c + j) for j in range(8))
+            return
         return CB.ByteInterp.store(self, st, p, v, size, inst)
+
+    @staticmethod
+    def vkey(v):
+        if isinstance(v, PtrByte):
+            return ('p', v.p.obj, v.p.off.key() if v.p.off is not None else None, v.j)
+        return CB.ByteInterp.vkey(v)
 
     def default_external(self, st, i, callee, args):
         raise Unresolved('call to %s, which has no summary in the content analysis' % callee)
